@@ -830,6 +830,15 @@ func (w *c10World) stats(out *vh.Out, pfx string, steps []c10Step, acc *c10Accep
 	}
 	out.Stat(fmt.Sprintf("%s.restarts.%d", pfx, nr))
 	out.Stat(pfx + ".end." + strings.SplitN(fin, ":", 2)[0])
+	if len(acc.hdr) > 1<<20 {
+		fromDisk := 0
+		for i, s := range seen {
+			if i > 0 && s.gotBody {
+				fromDisk++
+			}
+		}
+		out.Stat(fmt.Sprintf("%s.header>1MiB.attempts-with-body-after-the-first.%d", pfx, fromDisk))
+	}
 	switch n := len(acc.body); {
 	case n == 0:
 		out.Stat(pfx + ".body.empty")
@@ -1166,6 +1175,10 @@ func c10GenRun(r *vh.Rng, big bool) string {
 	if len(steps) == 0 || r.Chance(1) {
 		steps = append(steps, "aP"+strings.Repeat("o", len(to)))
 	}
+	if big && len(steps) == 1 && steps[0][0] == 'a' {
+		// big cases are there for the spool path: a first attempt that keeps everybody pending, a restart, the original attempt
+		steps = []string{"aP" + strings.Repeat("t", len(to)), "r", steps[0]}
+	}
 	// header: what ReadHeader makes of a generated blob (as the endpoint does), plus fields the
 	// pipeline adds (Header.Add), plus - rarely - junk through AddRaw (outside the property's domain)
 	var fields []string
@@ -1196,6 +1209,25 @@ func c10GenRun(r *vh.Rng, big bool) string {
 	for _, f := range parsed {
 		fields = append(fields, "r:"+vh.HexBytes(f))
 	}
+	hugeHdr := big && r.Chance(50)
+	if hugeHdr {
+		// a header larger than any plausible "reasonable header" bound (1 MiB is the endpoint's DEFAULT
+		// max_header_size; the limit is configurable and maddy prepends fields of its own): every line
+		// at most 998 octets, the last fields short and distinctive so that a truncation shows
+		total := []int{1<<20 + 300, 1<<20 + 70000, 2<<20 + 17}[r.Intn(3)]
+		if vh.Thorough() && r.Chance(30) {
+			total = 5<<20 + 11
+		}
+		sz := 0
+		for i := 0; sz < total; i++ {
+			f := []byte(fmt.Sprintf("X-Pad-%d: ", i))
+			f = append(f, bytes.Repeat([]byte{byte('a' + i%26)}, 900+r.Intn(80))...)
+			f = append(f, '\r', '\n')
+			fields = append(fields, "r:"+vh.HexBytes(f))
+			sz += len(f)
+		}
+		fields = append(fields, "r:"+vh.HexBytes([]byte("Subject: after the padding\r\n")), "r:"+vh.HexBytes([]byte("X-Last: 1\r\n")))
+	}
 	if r.Chance(4) {
 		bad := []int{1, 4, 7, 8, 9, 10}[r.Intn(6)]
 		f := c10GenField(r, "\r\n", bad)
@@ -1212,7 +1244,7 @@ func c10GenRun(r *vh.Rng, big bool) string {
 	// body
 	sizes := []int{0, 0, 1, 2, 17, 200, 1500, 4095, 4096, 4097, 32768, 70000}
 	n := sizes[r.Intn(len(sizes))]
-	if big {
+	if big && !hugeHdr {
 		n = []int{1<<20 - 1, 1 << 20, 1<<20 + 1, 1<<20 + 4097, 3<<20 + 5}[r.Intn(5)]
 	}
 	kind := r.Intn(5)
@@ -1338,7 +1370,7 @@ func TestVerifC10Run(t *testing.T) {
 	}
 	r := vh.NewRng(vh.Seed() + 2010)
 	n := vh.N(600) / 2
-	nbig := 4
+	nbig := 6
 	if vh.Thorough() {
 		nbig = 24
 	}
